@@ -68,6 +68,18 @@ def _retry_then_gc_after(k):
     return mk
 
 
+def _in_order(order):
+    """whole actors one after another in the given order"""
+    def mk(rng):
+        def choose(s, ready):
+            for a in order:
+                if a in ready:
+                    return a
+            return sorted(ready)[0]
+        return choose
+    return mk
+
+
 def _gc_after_k(k):
     """transaction 1 passes k gated operations of its commit, then the WHOLE collection runs, then the rest"""
     def mk(rng):
@@ -136,7 +148,7 @@ def run_case(ctx, rep, case, base, model_ok):
                 return
             finally:
                 del h.storage.write_file
-        elif case.get("kind") in ("prebuilt-file", "prebuilt-nested"):
+        elif case.get("kind") in ("prebuilt-file", "prebuilt-nested", "prebuilt-shared"):
             # a data file built OUTSIDE the library (already older than the grace period) queued through the file-level API
             import pyarrow as pa
             import pyarrow.parquet as pq
@@ -144,10 +156,12 @@ def run_case(ctx, rep, case, base, model_ok):
             sch_ = h.file_manager.data_file_manager.create_arrow_schema(tablekit.schema())
             sub_ = "region=eu/" if case.get("kind") == "prebuilt-nested" else ""
             os.makedirs(os.path.join(path, "data", sub_), exist_ok=True)
-            fp_ = os.path.join(path, "data", sub_, f"prebuilt_{a}.parquet")
-            pq.write_table(pa.table({"id": [1000 * a], "name": [f"ext{a}"]}, schema=sch_), fp_)
-            _age(path, f"data/{sub_}prebuilt_{a}.parquet")
-            df_ = DataFile(file_path=f"/data/{sub_}prebuilt_{a}.parquet", file_format=FileFormat.PARQUET, partition_values={},
+            fa_ = 1 if case.get("kind") == "prebuilt-shared" else a      # shared: every transaction queues the SAME file
+            fp_ = os.path.join(path, "data", sub_, f"prebuilt_{fa_}.parquet")
+            if not os.path.exists(fp_):
+                pq.write_table(pa.table({"id": [1000 * fa_], "name": [f"ext{fa_}"]}, schema=sch_), fp_)
+            _age(path, f"data/{sub_}prebuilt_{fa_}.parquet")
+            df_ = DataFile(file_path=f"/data/{sub_}prebuilt_{fa_}.parquet", file_format=FileFormat.PARQUET, partition_values={},
                            record_count=1, file_size_in_bytes=os.path.getsize(fp_))
             tx.append_files([df_])
             if case.get("reused"):
@@ -161,7 +175,7 @@ def run_case(ctx, rep, case, base, model_ok):
             tx.append_data(tablekit.rows(1, start=1000 * a, tag=f"t{a}_"))
         else:
             tx.append_data(tablekit.rows(1, start=1000 * a, tag=f"t{a}_"))
-        rel = tx._written_files[0].lstrip("/") if tx._written_files else f"data/{'region=eu/' if case.get('kind') == 'prebuilt-nested' else ''}prebuilt_{a}.parquet"
+        rel = tx._written_files[0].lstrip("/") if tx._written_files else f"data/{'region=eu/' if case.get('kind') == 'prebuilt-nested' else ''}prebuilt_{1 if case.get('kind') == 'prebuilt-shared' else a}.parquet"
         old = case["aged"][a - 1]
         if old:
             _age(path, rel)
@@ -211,7 +225,7 @@ def run_case(ctx, rep, case, base, model_ok):
         sig = "C06:committed-file-deleted-by-concurrent-gc" if "missing" in p_ else "C06:" + p_.split(":")[0].replace(" ", "-")[:50]
         if "missing" in p_ and any(case["aged"]):
             sig = "C06:commit-between-metadata-read-and-marker-load"
-        if case.get("kind") in ("prebuilt-file", "prebuilt-nested"):
+        if case.get("kind") in ("prebuilt-file", "prebuilt-nested", "prebuilt-shared"):
             sig = "C06:prebuilt-file-of-an-open-transaction-has-no-marker"
         rep.violate(sig, f"{case['txs']} tx, aged {case['aged']}: {p_}", case_rec)
     # ---------------- correspondence: abstract trace → model
@@ -432,19 +446,34 @@ def run(ctx, model_ok):
     base = scratch_dir("c06-")
     try:
         # directed: a commit that loses the race and retries, with a whole collection placed after each of its gated operations
-        k, cid = 0, 100000
-        while True:
-            c = {"id": cid, "txs": 2, "aged": [True, True], "rollback": [False, False], "chooser": _retry_then_gc_after(k), "age_markers": k % 4 == 0}
-            cid += 1
-            try:
-                run_case(ctx, rep, c, base, model_ok)
-                rep.distribution["directed-retry-gc"] += 1
-            except sched.Stuck as e:
-                rep.notes.append(f"retry/gc case k={k} stuck: {e}")
-                break
-            if k >= c.get("tx1_gates", 0):
-                break
-            k += 1 if (ctx.thorough or ctx.intensify) else 2
+        cid = 100000
+        # (also with PRE-BUILT aged files: their markers are not tied to a file the transaction wrote, so anything a retry cleans up
+        # "by written file" must not take them along)
+        for extra in ({}, {"kind": "prebuilt-file", "no_model": True}, {"kind": "prebuilt-nested", "no_model": True}):
+            k = 0
+            while True:
+                c = {"id": cid, "txs": 2, "aged": [True, True], "rollback": [False, False], "chooser": _retry_then_gc_after(k), "age_markers": k % 4 == 0, **extra}
+                cid += 1
+                try:
+                    run_case(ctx, rep, c, base, model_ok)
+                    rep.distribution["directed-retry-gc" + ("-" + extra["kind"] if extra else "")] += 1
+                except sched.Stuck as e:
+                    rep.notes.append(f"retry/gc case {extra} k={k} stuck: {e}")
+                    break
+                if k >= c.get("tx1_gates", 0):
+                    break
+                k += 1 if (ctx.thorough or ctx.intensify) else (2 if not extra else 3)
+        # two live transactions queue the SAME pre-built aged file; one of them rolls back (or commits) completely, then a whole
+        # collection, then the other commits: the survivor's protection must not have gone with the first one's marker
+        for order, rb in (((2, 9, 1), [False, True]), ((1, 9, 2), [True, False]), ((2, 9, 1), [False, False])):
+            for g_ in (0, GRACE_MS):
+                c = {"id": cid, "txs": 2, "aged": [True, True], "rollback": rb, "chooser": _in_order(order), "kind": "prebuilt-shared", "no_model": True, "grace": g_}
+                cid += 1
+                try:
+                    run_case(ctx, rep, c, base, model_ok)
+                    rep.distribution["directed-shared-prebuilt"] += 1
+                except sched.Stuck as e:
+                    rep.notes.append(f"shared pre-built case {order} stuck: {e}")
         # grace 0: EVERYTHING unreachable and unprotected goes — a whole collection after each gated operation of one commit
         # (append / partial delete that rewrites a manifest / append whose first marker write failed)
         for variant in ({"kind": "append"}, {"kind": "delete-partial"}, {"kind": "append", "marker_fault": True}, {"kind": "prebuilt-file"},
